@@ -238,6 +238,9 @@ class C02(Check):
             bad("timeout", "accepted program does not terminate")
         elif res.exit != 0:
             cls = driver.classify_failure(res)
+            if cls == DYNAMIC_TYPE_ERROR and "optnil" in case[1:]:
+                # an operand of the operation is nil: whatever the wording, this is the defined "use of nil" failure
+                cls = "nil"
             if cls == DYNAMIC_TYPE_ERROR:
                 msg = driver.panic_message(res) or next((l.strip() for l in reversed(res.err.split("\n")) if re.match(r"\s*\d+: ", l)), res.err[-150:])
                 bad("dynamic-type-error", f"accepted by the compiler, fails at run time with a type error: {msg[:200]}")
